@@ -169,7 +169,10 @@ class CHECK(core.Check):
             kind = rng.choice(["s", "s", "s", "i", "b"])
             v = self._hvalue(rng) if kind == "s" else (rng.randrange(100000) if kind == "i" else
                                                        bytes(rng.randrange(32, 127) for _ in range(rng.randrange(6))).hex())
-            headers.append([self._hname(rng), kind, v])
+            name = self._hname(rng)
+            if name.lower() == "content-type" and kind != "s":
+                kind, v = "s", "text/x-thing"          # a content type is text
+            headers.append([name, kind, v])
         mode = rng.choice(["none", "body", "body", "data", "fargs"])
         case = {"kind": "request", "host": rng.choice(["a.test", "10.0.0.9", "localhost"]),
                 "port": rng.choice([80, 8080, 443]), "scheme": rng.choice(["http", "https"]), "method": method,
